@@ -400,5 +400,18 @@ fn main() {
         |h, st| h.tape_search("c12.units", cases, 96, st, |tape, st| unit_prop(&model, &ix, root, tape, st)),
         |case| replay_tape(case, |tape, st| unit_prop(&model, &ix, root, tape, st)),
     );
+    // the same unit-level relations on the larger fx tree
+    let spec_fx = vrun::spec_of(fixture::fx::SPEC_JSON);
+    let model_fx = Model::build(&spec_fx).expect("fx fixture is collision-free");
+    let ix_fx = Index::new(&model_fx, true);
+    let root_fx: &'static Node = fixture::fx::I::<8>::new_fixture().root_node();
+    let cases = h.tier.pick(100_000, 2_000_000);
+    h.check(
+        "c12.units_fx",
+        "the c12.units relations on the tree of the fx fixture (28 declarations, optional nodes, strings and blocks at argument positions 1-10, contexts up to three levels deep)",
+        false,
+        |h, st| h.tape_search("c12.units_fx", cases, 200, st, |tape, st| unit_prop(&model_fx, &ix_fx, root_fx, tape, st)),
+        |case| replay_tape(case, |tape, st| unit_prop(&model_fx, &ix_fx, root_fx, tape, st)),
+    );
     h.finish();
 }
